@@ -64,17 +64,15 @@ impl Polygon {
     /// Vértices del lado que empieza en el vértice con el nombre indicdo (Vnn)
     /// El lado que empieza en el último vértice continua en el vértice inicial
     pub fn edge_vertices(&self, vertexname: &str) -> Option<[&Point2; 2]> {
+        // Un nombre de vértice desconocido o fuera del polígono no define ningún lado
         let num_vertex: usize = vertexname
-            .strip_prefix('V')
-            .map_or_else(
-                || panic!("Vértice {} desconocido de polígono", vertexname),
-                str::parse::<usize>,
-            )
+            .strip_prefix('V')?
+            .parse::<usize>()
             .ok()?
-            - 1;
+            .checked_sub(1)?;
         Some([
-            &self.0[num_vertex],
-            &self.0[(num_vertex + 1) % self.0.len()],
+            self.0.get(num_vertex)?,
+            self.0.get((num_vertex + 1) % self.0.len())?,
         ])
     }
 
@@ -101,6 +99,9 @@ impl Polygon {
     /// Devuelve un polígono que es un espejo respecto al eje X
     pub fn mirror_y(&self) -> Self {
         let mirror: Vec<_> = self.0.iter().map(|p| point![p.x, -p.y]).collect();
+        if mirror.is_empty() {
+            return Self(mirror);
+        }
         let mut counterclockwise = vec![mirror[0]];
         counterclockwise.extend(mirror[1..].iter().rev());
         Self(counterclockwise)
